@@ -57,6 +57,10 @@ CHECKS["C11"] = ("runtime monitor + Go race detector: diagnostic sets across sch
   "Generated modules with @ignore comments in every package are analysed under 3 configurations (incl. non-empty exclude-checks) and ~13 schedules each: 3 repeats, -debug=p, GOMAXPROCS 1/4, 2 argument permutations, the in-process driver with PRNG yields/sleeps at every Analyzer.Run entry (one of them under -race), the -race binary, and 4 concurrent Analyze calls in one -race process; all (file,line,col,analyzer,message) sets must equal the first parallel run, and no DATA RACE block may be logged (GORACE log_path, blocks counted and de-duplicated by top frames). Evidence records overlapping actions and distinct completion orders actually seen.",
   "the race detector only sees code the workloads execute concurrently; vet-driver schedules are process-level and not perturbed", "DESIGN.md §3 C11")
 
+CHECKS["C10"] = ("runtime termination monitor: exit status / stderr / analyzer errors / CPU time of the real binary and of go vet -vettool on annotation-injected real-world code, exotic generated programs and fuzzed comments",
+  "(a) yaml.v3, testify, go-spew, go-difflib and a set of x/tools packages are copied, annotations of every kind (incl. @implements with existing / missing / unimported / self targets, @constructor naming existing and missing functions, @mutable on fields, @ignore comments) are injected above PRNG-chosen declarations in several rounds at rates 5-40%, and the copies are analysed in json and text mode, default and scan-tests, plus go vet -vettool where tests compile offline; (b) generated programs containing every FREE shape and a file of exotic valid Go (generics, embedding, aliases of predeclared types, labels, method expressions, channel/select/range assignments) with package-level initialisers in every position, both drivers; (c) modules with thousands of fuzzed '@keyword<bytes>' doc comments. Every run must end with its diagnostics status, without panic / fatal error / internal error / analyzer error, within the CPU bound.",
+  "hang bound on child CPU time (300 s); wall-clock watchdog only yields 'inconclusive'; std-library overlay injection (needs the go1.26.8 harness) is not built in this round", "DESIGN.md §3 C10")
+
 PENDING_REASON = "monitor for this property is still under construction in this round (designed in DESIGN.md §3; not claimed until its check is silent on the unchanged tree)"
 def main():
     checks = []
